@@ -225,6 +225,11 @@ def instantiate(hyps, goal, rounds=4):
             # the quantifier-free skeleton of h2 is not kept: only instances are asserted
         else:
             ground.append(h2)
+    if _contains_quantifier(neg_goal, qcache):
+        # universal quantifiers in positive position of the negated goal (antecedents `forall ... ->` of the goal)
+        found = []
+        _walk_positive_foralls(neg_goal, +1, [], found)
+        quants.extend(found)
     work = list(ground) + [neg_goal]
     for w in work:
         inst.collect(w)
